@@ -5,6 +5,7 @@ import ast
 import re
 import typing as t
 
+from .. import anchors
 from ..cfg import CFG, Node, cfg_of, handler_classes, node_exprs, walk_no_nested
 from ..family import family
 from ..model import AnalysisError, FuncInfo, Model, ancestors, unparse
@@ -124,7 +125,7 @@ def rule_c18_r2(model: Model) -> RuleResult:
             if isinstance(c.func, ast.Name):
                 par = next((a for a in ancestors(c) if isinstance(a, ast.For)), None)
                 if par is not None and isinstance(par.target, ast.Name) and par.target.id == c.func.id and \
-                        model.resolve(par.iter, f.module, f) == 'pane.convert._GLOBAL_HANDLERS':
+                        model.resolve(par.iter, f.module, f) == anchors.global_handlers(model):
                     is_global_handler = True
             if q not in takers and not is_conv and not is_super_init and not is_global_handler:
                 continue
@@ -150,7 +151,7 @@ def rule_c18_r3(model: Model) -> RuleResult:
     cfg = cfg_of(model, mk)
     nz = Normalizer(model, mk, cfg, param_map=_pm(mk))
     r.analysed.add(mk.qualname)
-    loops = [n for n in cfg.live_nodes() if n.kind == 'iter' and nz.expr(n.ast.iter, n) in ('$handlers', 'pane.convert._GLOBAL_HANDLERS')]  # type: ignore[attr-defined]
+    loops = [n for n in cfg.live_nodes() if n.kind == 'iter' and nz.expr(n.ast.iter, n) in ('$handlers', anchors.global_handlers(model))]  # type: ignore[attr-defined]
     if len(loops) != 2:
         raise AnalysisError(f"{mk.loc()}: expected two handler loops in make_converter, found {len(loops)}")
     shapes = []
